@@ -9,7 +9,7 @@
    that the real blocks are distinct, and all assignment / swap / allocator paths, are decided
    by the correspondence check (DESIGN.md, C12). *)
 From Coq Require Import ZArith List Bool.
-From Cntgs Require Import Base Layout Mem Vector Proxy Elem World Spec Rep ElemThm AssignThm.
+From Cntgs Require Import Base Layout Mem Vector Proxy Elem World Spec Rep ElemThm AssignThm MoveThm.
 Import ListNotations.
 Local Open Scope Z_scope.
 
@@ -96,3 +96,17 @@ Example C12_independent :
   read_objs (v_mem (getv w12 0)) (nth 1 Lv pparam0) (nth 1 (vfl Lv (getv w12 0) 1) fld0) = [[9;9;9;9]; [6;6;6;6]] /\
   e_bid (gete w12 0) <> v_bid (getv w12 0) /\ e_aid (gete w12 0) = 2.
 Proof. vm_compute. repeat split; discriminate. Qed.
+
+(* field-wise MOVE assignment (FixedSize / plain lists, unequal non-propagating allocators, the
+   target owns a block): the target holds exactly the source's tuple in its own block with its
+   own allocator, for every value-type category and run-table shape (MoveThm.v) *)
+Theorem C12_element_move_assignment_fieldwise : forall L, wf_plist L = true ->
+  forall d src ts td fcs fcd junk nb,
+  tuple_ok L fcs 0 ts -> tuple_ok L fcd 0 td -> cnts_of td = cnts_of ts ->
+  elem_holds L src ts -> elem_holds L d td -> e_aid d <> e_aid src ->
+  (fixed_or_plain L && match e_bid d with Some _ => true | None => false end) = true ->
+  let '(d', src', evs, nb') := elem_move_assign false false L d src junk nb in
+  elem_holds L d' ts /\ e_bid d' = e_bid d /\ e_units d' = e_units d /\ e_aid d' = e_aid d /\
+  e_bid src' = e_bid src /\ nb' = nb.
+Proof. exact elem_move_assign_fieldwise_spec. Qed.
+Print Assumptions C12_element_move_assignment_fieldwise.
